@@ -49,7 +49,7 @@ struct Scenario {
           else if (k == "ndots") o.ndots = atoi(v.c_str()); else if (k == "rotate") o.rotate = atoi(v.c_str()); else if (k == "udpmax") o.udpmax = atoi(v.c_str()); else if (k == "qcache") o.qcache = atol(v.c_str());
           else if (k == "lookups") o.lookups = v; else if (k == "domains") { o.domains = v; o.domains_set = true; } else if (k == "failover") { o.failover_chance = atoi(v.c_str()); size_t sl = v.find('/'); if (sl != std::string::npos) o.failover_delay = atoi(v.c_str() + sl + 1); }
           else if (k == "sockstate") o.sockstate = atoi(v.c_str()); else if (k == "pendingwrite") o.pendingwrite = atoi(v.c_str()); else if (k == "nonblock") o.nonblock = atoi(v.c_str()); else if (k == "tfo") o.tfo = atoi(v.c_str());
-          else if (k == "ednspsz") o.ednspsz = atoi(v.c_str()); else if (k == "process") o.process = v; else if (k == "c07") o.c07 = atoi(v.c_str()); else if (k == "mixed") o.mixed = atoi(v.c_str()); else if (k == "cnamemod") o.cname_mod = atoi(v.c_str()); } }
+          else if (k == "ednspsz") o.ednspsz = atoi(v.c_str()); else if (k == "process") o.process = v; else if (k == "c07") o.c07 = atoi(v.c_str()); else if (k == "mixed") o.mixed = atoi(v.c_str()); else if (k == "cnamemod") o.cname_mod = atoi(v.c_str()); else if (k == "noempty") s.w.suppress_empty = atoi(v.c_str()) != 0; } }
       else if (op == "servers") { s.server_specs.assign(t.begin() + 1, t.end()); }
       else if (op == "resolv") s.resolv_lines.push_back(l.size() > 7 ? l.substr(7) : "");
       else if (op == "hosts") s.hosts_lines.push_back(l.size() > 6 ? l.substr(6) : "");
@@ -252,6 +252,7 @@ struct Scenario {
     World &w = s.w;
     for (auto &t : w.txs) vf::msg("TX #%zu t=%lld fd=%d srv=%d %s qid=%u %s type=%u req=%d nth=%zu outcome=%s cookie=%s edns=%d serial=%u\n", t.seq, (long long)t.t, t.fd, t.server, t.tcp ? "tcp" : "udp", t.qid, t.qname_lower.c_str(), t.qtype, t.req, t.nth, t.outcome >= 0 ? kOutcomeNames[t.outcome] : "-", t.has_cookie ? vf::hex(t.cookie).c_str() : "-", t.edns, t.serial);
     for (auto &c : w.calls) vf::msg("CALL t=%lld %s fd=%d rv=%ld errno=%d\n", (long long)c.t, c.call.c_str(), c.fd, c.rv, c.err);
+    for (auto &e : w.sockstate_events) vf::msg("SOCKSTATE t=%lld fd=%d r=%d w=%d open=%d\n", (long long)e.t, e.fd, e.r, e.w, (int)e.open);
     for (auto &e : s.server_events) vf::msg("SRVSTATE t=%lld %s %s flags=%d\n", (long long)e.t, e.server.c_str(), e.success ? "ok" : "FAIL", e.flags);
     for (auto &kv : s.reqs) { const Req &q = kv.second; std::string ser; for (auto x : q.serials) ser += std::to_string(x) + ","; vf::msg("REQ %d %s %s calls=%d status=%d(%s) t=%lld..%lld timeouts=%d serials=%s addrs=%zu api=%s\n", q.id, q.kind.c_str(), q.name.substr(0, 60).c_str(), q.calls, q.status, q.status >= 0 ? ares_strerror(q.status) : "-", (long long)q.t_start, (long long)q.t_end, q.timeouts, ser.c_str(), q.addrs.size(), q.api.c_str()); }
     for (auto &n : s.notes) vf::msg("NOTE %s\n", n.c_str());
@@ -264,6 +265,8 @@ struct Scenario {
     monitor_c10(r);
     if (prop == "C06" || prop == "C07" || prop == "C01") monitor_c06(r);
     monitor_c05(r);
+    monitor_c20(r);
+    summarise(r);
     // non-triviality for C01 (DESIGN 5, C01)
     size_t nreq = 0, search2 = 0; for (auto &kv : S.reqs) if (kv.second.started) nreq++;
     std::map<int, std::set<std::string>> cand; for (auto &t : S.w.txs) if (t.req >= 0) cand[t.req].insert(t.qname_lower); for (auto &c : cand) if (c.second.size() >= 2) search2++;
@@ -274,6 +277,41 @@ struct Scenario {
     if (has_faults) r.counters["sim.with_socket_faults"]++; if (has_cancel) r.counters["sim.with_cancel"]++; if (has_reconfig) r.counters["sim.with_reconfig"]++; if (search2) r.counters["sim.search_2plus_candidates"]++; if (timeouts) r.counters["sim.with_timeouts"]++;
     for (auto &t : S.w.txs) if (t.tcp) { r.counters["sim.tcp_transmissions"]++; break; }
     return r;
+  }
+
+  // order-independent description of what each request got and what each server saw
+  void summarise(RunResult &r) {
+    World &w = s.w; std::map<uint32_t, const Prov *> bys; for (auto &p : w.provs) bys[p.serial] = &p;
+    for (auto &kv : s.reqs) { const Req &q = kv.second; if (!q.started) continue;
+      std::set<std::string> ids; for (uint32_t ser : q.serials) { auto it = bys.find(ser); if (it == bys.end()) { ids.insert("unknown-serial"); continue; } const Prov &p = *it->second; if (p.tx != (size_t)-1) { const Tx &t = w.txs[p.tx]; ids.insert("srv" + std::to_string(t.server) + (t.tcp ? "/tcp/" : "/udp/") + t.qname_lower + "/" + std::to_string(t.qtype) + "/n" + std::to_string(t.nth)); } else ids.insert("forged:" + p.forgery); }
+      std::string line = "req " + std::to_string(q.id) + " " + q.kind + " calls=" + std::to_string(q.calls) + " status=" + std::to_string(q.status) + " naddr=" + std::to_string(q.addrs.size()) + " from={"; for (auto &i : ids) line += i + ","; line += "}"; r.outcome_summary.push_back(line); }
+    std::sort(r.outcome_summary.begin(), r.outcome_summary.end());
+    for (auto &t : w.txs) r.server_stream.push_back(std::string(t.decodable ? "" : "UNDECODABLE ") + "req" + std::to_string(t.req) + " srv" + std::to_string(t.server) + (t.tcp ? " tcp " : " udp ") + t.qname_lower + " " + std::to_string(t.qtype) + " n" + std::to_string(t.nth) + (t.edns ? " edns" : ""));
+    std::sort(r.server_stream.begin(), r.server_stream.end());
+  }
+
+  void monitor_c20(RunResult &r) {
+    World &w = s.w;
+    for (auto &t : w.txs) if (t.outcome == O_GARBAGE || t.outcome == O_RESET || t.outcome == O_EOFMID) r.counters["c20.conn_killing_outcomes"]++;
+    if (has_faults || has_cancel || has_reconfig || has_inject) r.counters["c20.conn_killing_outcomes"]++;
+    // whatever reached a server over TCP is a sequence of whole [len][msg] frames, each decodable, nothing left over on an orderly close
+    for (auto &t : w.txs) if (t.tcp && !t.decodable) fail(r, "C20.undecodable-frame-at-server", "server " + std::to_string(t.server) + " received a frame it cannot decode on descriptor " + std::to_string(t.fd));
+    for (auto &k : w.socks) if (k.tcp && !k.outstream.empty() && !k.reset && !has_faults && !has_cancel && !has_reconfig) { bool pending_req = false; for (auto &kv : s.reqs) if (kv.second.pending_at_destroy || kv.second.status == ARES_ETIMEOUT || kv.second.status == ARES_ECANCELLED) pending_req = true; if (!pending_req) r.counters["c20.partial_frame_left_at_close"]++; }
+    // a truncated UDP answer is retried over TCP unless truncation is ignored
+    if (!(s.opt.flags & ARES_FLAG_IGNTC) && !has_faults && !has_cancel && !has_reconfig && !s.stuck && !s.astronomic) for (auto &t : w.txs) if (!t.tcp && t.outcome == O_TC) {
+      bool delivered = false; for (auto &d : w.delivered) if (d.serial == t.serial) delivered = true; if (!delivered) continue;
+      bool acceptable = true; for (auto &p : w.provs) if (p.serial == t.serial && (!p.cookie_valid || !p.genuine)) acceptable = false; if (!acceptable || (t.server >= 0 && w.servers[(size_t)t.server].cookie_mode != "none" && w.servers[(size_t)t.server].cookie_mode != "valid")) continue;   // a reply the cookie rules reject is rightly ignored
+      bool upgraded = false; for (auto &u : w.txs) if (u.tcp && u.req == t.req && u.qname_lower == t.qname_lower && u.qtype == t.qtype && u.seq > t.seq) upgraded = true;
+      const Req *q = s.reqs.count(t.req) ? &s.reqs[t.req] : nullptr;
+      // the request may legitimately have finished otherwise first (sibling answer, destroy) or the TCP connection could not be written
+      bool tcp_attempted = false; for (auto &k : w.socks) if (k.tcp && k.server >= 0 && k.opened_at >= t.t) tcp_attempted = true;
+      if (!upgraded && !tcp_attempted && q && q->calls == 1 && q->status == ARES_SUCCESS && q->tx_at_end > t.seq) { bool from_tc = false; for (uint32_t ser : q->serials) if (ser == t.serial) from_tc = true; if (from_tc) fail(r, "C20.truncated-udp-answer-accepted", "request " + std::to_string(t.req) + " was completed with a truncated UDP answer although IGNTC is not set"); }
+      // ... and it must actually go out over TCP: with a well-behaved virtual network nothing prevents the TCP transmission
+      if (!upgraded && q && q->calls == 1 && q->status == ARES_ETIMEOUT && !r.counters["c20.conn_killing_outcomes"]) fail(r, "C20.truncated-answer-not-retried-over-tcp", "request " + std::to_string(t.req) + " got a truncated UDP answer for " + t.qname_lower + " and then timed out without the question ever reaching the server over TCP");
+      r.counters[upgraded ? "c20.tc_upgraded_to_tcp" : "c20.tc_not_upgraded"]++;
+    }
+    r.counters["c20.split_reads"] += w.split_reads; r.counters["c20.short_writes"] += w.short_writes; r.counters["c20.blocked_writes"] += w.blocked_writes;
+    if (prop == "C20" && (w.split_reads || w.short_writes || w.blocked_writes)) r.nontrivial = true;
   }
 
   RunResult run(const std::string &text, const std::string &property) {
@@ -294,5 +332,34 @@ struct Scenario {
     return r;
   }
 };
+
+// strip transport chopping and zero-length datagrams from a scenario (the "whole transport" twin of C20)
+inline std::string whole_transport_twin(const std::string &text) {
+  std::istringstream in(text); std::string l, o;
+  while (std::getline(in, l)) { if (l.rfind("chop ", 0) == 0 || l.rfind("partial ", 0) == 0) continue; o += l + "\n"; }
+  return o + "opt noempty=1\n";   // same outcome table (so the hash picks the same outcomes), but the zero-length datagram is not sent
+}
+
+// Runs a case for a property.  C20 is metamorphic: the same scenario with whole transport must give the same outcomes.
+inline RunResult run_prop(const std::string &text, const std::string &prop) {
+  if (prop != "C20") { Scenario sc; return sc.run(text, prop); }
+  RunResult var; { Scenario sc; var = sc.run(text, prop); }
+  if (!var.v.ok) return var;
+  RunResult base; { Scenario sc; base = sc.run(whole_transport_twin(text), prop); }
+  if (!base.v.ok) { base.v.detail = "(whole-transport twin) " + base.v.detail; base.nontrivial = var.nontrivial; return base; }
+  // when a connection is torn down abnormally, how much of the queued data had reached the server does depend on segmentation: not comparable
+  if (var.counters["c20.conn_killing_outcomes"] || base.counters["c20.conn_killing_outcomes"]) { var.counters["c20.pairs_skipped_connection_abort"]++; var.nontrivial = false; return var; }
+  if (var.outcome_summary != base.outcome_summary) {
+    std::string d; for (size_t i = 0; i < std::max(var.outcome_summary.size(), base.outcome_summary.size()); i++) { std::string a = i < base.outcome_summary.size() ? base.outcome_summary[i] : "<none>", b = i < var.outcome_summary.size() ? var.outcome_summary[i] : "<none>"; if (a != b) { d = "whole:   " + a + "\n  chopped: " + b; break; } }
+    var.v.ok = false; var.v.sig = "C20.outcome-depends-on-segmentation"; var.v.detail = d; return var;
+  }
+  if (var.server_stream != base.server_stream) {
+    std::string d; for (size_t i = 0; i < std::max(var.server_stream.size(), base.server_stream.size()); i++) { std::string a = i < base.server_stream.size() ? base.server_stream[i] : "<none>", b = i < var.server_stream.size() ? var.server_stream[i] : "<none>"; if (a != b) { d = "whole:   " + a + "\n  chopped: " + b; break; } }
+    var.v.ok = false; var.v.sig = "C20.server-stream-depends-on-segmentation"; var.v.detail = d; return var;
+  }
+  for (auto &kv : base.counters) if (kv.first.rfind("c20.", 0) != 0) {}
+  var.counters["c20.metamorphic_pairs"]++;
+  return var;
+}
 
 }  // namespace sim
